@@ -64,6 +64,8 @@ def args_key(a):
         return json.dumps([[k, json.dumps(enc(v))] for k, v in sorted(a.items())]) + str(a.tyinst)
     if isinstance(a, (tuple, list)):
         return "(" + ",".join(args_key(x) for x in a) + ")"
+    if isinstance(a, dict):
+        return "{" + ",".join("%s:%s" % (k, args_key(x)) for k, x in sorted(a.items())) + "}"
     return str(a)
 
 
@@ -262,5 +264,73 @@ def harvest(out_path, seed, n_per, theories):
     print("macro events", out.tid)
 
 
+def verit(vec_path, out_path, limit):
+    """the veriT rule macros: every candidate step generated by spec/C18_Alethe.tla (intended instances and near misses) is
+    evaluated, expanded (get_proof_term) and the expansion checked at the default trust level"""
+    from harness.drivers import c18          # registers the repository's smt package and loads theory verit
+    out = Out(out_path)
+    n = 0
+    for ln in open(vec_path):
+        ln = ln.strip()
+        if not ln:
+            continue
+        v = json.loads(ln)
+        if v["rule"] in c18.CTX_RULES:
+            continue
+        try:
+            prevs = [c18.mk_thm(p) for p in v["prems"]]
+            args = c18.mk_args(v)
+        except Exception:
+            continue
+        try:
+            import contextlib, io
+            with contextlib.redirect_stdout(io.StringIO()):
+                run_invocation(out, v["rule"], args, prevs, "verit/" + v.get("mut", ""))
+        except Exception as e:
+            sys.stderr.write("verit invocation skipped: %s %r\n" % (v["rule"], e))
+        n += 1
+        if limit and n >= limit:
+            break
+    out.f.close()
+    print("verit macro events", out.tid)
+
+
+def arith(vec_path, out_path, limit):
+    """arithmetic macros that HAVE an expansion (level > 0): every goal of the C05 universe (l REL r at nat / int / real, also at
+    types the macro is not meant for) is evaluated and expanded"""
+    basic.load_theory("real")
+    from harness.drivers import c05
+    names = []
+    for name, m in sorted(theory.global_macros.items()):
+        mod = type(m).__module__
+        if mod in ("data.nat", "data.integer", "data.real") and m.level is not None and m.level > 0 and m.sig is Term and theory.has_macro(name):
+            names.append(name)
+    out = Out(out_path)
+    n = 0
+    for ln in open(vec_path):
+        ln = ln.strip()
+        if not ln:
+            continue
+        try:
+            g = c05.build(json.loads(ln)["g"])
+        except Exception:
+            continue
+        for name in names:
+            try:
+                run_invocation(out, name, g, [], "arith")
+            except Exception as e:
+                sys.stderr.write("arith invocation skipped: %s %r\n" % (name, e))
+        n += 1
+        if limit and n >= limit:
+            break
+    out.f.close()
+    print("arith macro events", out.tid, "macros", names)
+
+
 if __name__ == "__main__":
-    harvest(sys.argv[2], int(sys.argv[3]), int(sys.argv[4]), sys.argv[5].split(","))
+    if sys.argv[1] == "arith":
+        arith(sys.argv[2], sys.argv[3], int(sys.argv[4]) if len(sys.argv) > 4 else 0)
+    elif sys.argv[1] == "verit":
+        verit(sys.argv[2], sys.argv[3], int(sys.argv[4]) if len(sys.argv) > 4 else 0)
+    else:
+        harvest(sys.argv[2], int(sys.argv[3]), int(sys.argv[4]), sys.argv[5].split(","))
